@@ -413,8 +413,17 @@ fn main() {
     let mut outcome_counts: std::collections::BTreeMap<String, usize> = Default::default();
     let mut nontrivial = 0usize;
     let mut bad_seen: std::collections::BTreeMap<String, usize> = Default::default();
-    for mode in ["thread", "main"] {
-        let res = run_children(&args.out, "oracle", &js, mode);
+    // the two stack configurations (and the skeleton family) run in parallel child processes
+    let n_skel = if thorough { 6000 } else { 1200 };
+    let cases = skel_cases(&mut rng, n_skel);
+    let sj: Vec<J> = cases.iter().map(|c| json!({"name": "t", "src": c.text, "hooks": true})).collect();
+    let (res_thread, res_main, res_skel) = std::thread::scope(|sc| {
+        let a = sc.spawn(|| run_children(&args.out, "oracle", &js, "thread"));
+        let b = sc.spawn(|| run_children(&args.out, "oracle", &js, "main"));
+        let c = sc.spawn(|| run_children(&args.out, "skel", &sj, "thread"));
+        (a.join().expect("thread run"), b.join().expect("main run"), c.join().expect("skel run"))
+    });
+    for (mode, res) in [("thread", res_thread), ("main", res_main)] {
         for (inp, r) in inputs.iter().zip(res.iter()) {
             meta.oracle_checks += 1;
             if let ChildRes::Done(j) = r {
@@ -459,10 +468,7 @@ fn main() {
     // ---------------- model-side correspondence on the skeleton grammar
     let hdr = "From TeraV Require Import Model.ParseDepth Corr.CorrC06.";
     let mut sink = Sink::new(&args.out, "skel", hdr, "check_skel");
-    let n_skel = if thorough { 6000 } else { 1200 };
-    let cases = skel_cases(&mut rng, n_skel);
-    let sj: Vec<J> = cases.iter().map(|c| json!({"name": "t", "src": c.text, "hooks": true})).collect();
-    let res = run_children(&args.out, "skel", &sj, "thread");
+    let res = res_skel;
     for (c, r) in cases.iter().zip(res.iter()) {
         meta.oracle_checks += 1;
         if let Some(what) = is_bad(r) {
